@@ -50,7 +50,7 @@ META = {
     'components_real': ['TapeRecorder sampling decision, force / discard / skip handling', 'S3TapeCassette._should_sample', 'random.Random (history part)'],
     'components_stub': ['scripted RNG (table part)', 'spy cassette', 'S3 bucket'],
     'budgets': {'quick': {'seconds': 25}, 'thorough': {'seconds': 300}},
-    'required_probes': {'quick': ['table_row'], 'thorough': ['table_row', 'history_same_seed', 'history_paired', 'history_mixed_classes', 's3_calculator', 'straggler_force', 'operation_inherited_by_classes_with_other_parameters', 'parameters_applied_after_first_run']},
+    'required_probes': {'quick': ['table_row'], 'thorough': ['table_row', 'history_same_seed', 'history_paired', 'history_mixed_classes', 's3_calculator', 'straggler_force', 'operation_inherited_by_classes_with_other_parameters', 'parameters_applied_after_first_run', 'abort_fails_on_discard']},
 }
 
 
@@ -267,7 +267,12 @@ def history_mixed(tape):
         rng.values = [draw]
         before_draws = rng.draws
         before = len(spy.calls)
+        # the storage may fail to abort: the discard has still been decided
+        spy.abort_raises = discard and tape.draw(4) == 3
+        if spy.abort_raises:
+            run.probe('abort_fails_on_discard')
         R.record_once(simple_spec(name, steps, params), run, spy, recorder=recorder)
+        spy.abort_raises = False
         calls = [c[0] for c in spy.calls[before:]]
         got = 'none' if not calls else '+'.join(c for c in calls if c != 'create')
         exp = expected_keep(params['skipped'], params['sampling_rate'], forced, params['ignore_enforced_sampling'], discard, draw)
@@ -298,7 +303,11 @@ def inherited_operation(tape):
         if plan['forced']:
             recorder.force_sample_recording()
         if plan['discard']:
-            recorder.discard_recording()
+            try:
+                recorder.discard_recording()
+            except IOError:
+                if not plan['swallow']:
+                    raise
         if plan['outcome'] == 'raise':
             raise R.D.ErrA()
         if plan['outcome'] == 'interrupt':
@@ -331,10 +340,13 @@ def inherited_operation(tape):
         entry = tape.choice(classes)
         cls, params, late = entry
         eff = defaults if late else params
-        plan.update(forced=tape.draw(3) == 2, discard=tape.draw(5) == 4, outcome=tape.choice(OUTCOMES))
+        plan.update(forced=tape.draw(3) == 2, discard=tape.draw(4) == 3, outcome=tape.choice(OUTCOMES), swallow=bool(tape.draw(2)))
         draw = tape.choice(DRAWS)
         rng.values = [draw]
         before_draws, before = rng.draws, len(spy.calls)
+        spy.abort_raises = plan['discard'] and tape.draw(3) == 2
+        if spy.abort_raises:
+            run.probe('abort_fails_on_discard')
         try:
             (cls if opkind == 'class' else cls()).execute()
             ended = 'return'
@@ -342,6 +354,9 @@ def inherited_operation(tape):
             ended = 'raise'
         except R.D.Interrupt:
             ended = 'interrupt'
+        except IOError:
+            ended = plan['outcome'] if (spy.abort_raises and not plan['swallow'] and not eff['skipped']) else 'storage error in the service'
+        spy.abort_raises = False
         calls = [c[0] for c in spy.calls[before:]]
         got = 'none' if not calls else '+'.join(c for c in calls if c != 'create')
         exp = expected_keep(eff['skipped'], eff['sampling_rate'], plan['forced'], eff['ignore_enforced_sampling'], plan['discard'], draw)
